@@ -61,8 +61,8 @@ _helper_cache = {}
 def gate_helper_summary(fb, fn):
     """Summarise a helper `fn(&State, flags) -> Result<()>` as: Ok  <=>  state.F & arg_i.bits() != 0.
     Returns (field_name, arg_index (1-based local of the flag param)) or None."""
-    if fn.key in _helper_cache:
-        return _helper_cache[fn.key]
+    if id(fn) in _helper_cache:
+        return _helper_cache[id(fn)]
     res = None
     try:
         m = Must(fn, fb)
@@ -98,7 +98,7 @@ def gate_helper_summary(fb, fn):
                 res = next(iter(cands))
     except Exception:
         res = None
-    _helper_cache[fn.key] = res
+    _helper_cache[id(fn)] = res
     return res
 
 
